@@ -927,6 +927,13 @@ func runC16(c *Ctx, r *Rec) {
 			r.skip(ent.rule, construct, c.pos(fd.Pos()), "no returned collection is created as a copy of an operand")
 		}
 	}
+	// a Go map from keys to positions in which "absent" is read off the zero value must never
+	// hold position zero for a key that is present
+	for _, fd := range []*ast.FuncDecl{c.methodsOf(lcls)["Concatenate"], cms["Merge"], cms["Extract"]} {
+		if fd != nil {
+			checkZeroAsAbsent(c, r, "D2-positions-not-mistaken-for-absence", info, fd)
+		}
+	}
 	// ---- D3 Extract
 	if fd := cms["Extract"]; fd != nil {
 		construct := c.fdName(fd)
@@ -1043,4 +1050,125 @@ func runC16(c *Ctx, r *Rec) {
 	checkCellsNotShared(c, r, "D4-cells-not-shared")
 	r.floor("D4-pure", 3)
 	r.floor("D4-fresh", 3)
+}
+
+// checkZeroAsAbsent: in fd (and nowhere else) a local map[K]int is looked up with the
+// single-value form and the result compared with zero to decide whether the key is present.
+// Then every value stored into that map must be at least 1.  A store of len(x) (the slot before
+// an append), of the constant 0 or of a zero-based range index is a present key that reads as
+// absent: the first entry is taken for a new one.
+func checkZeroAsAbsent(c *Ctx, r *Rec, rule string, info *types.Info, fd *ast.FuncDecl) {
+	if fd.Body == nil {
+		return
+	}
+	construct := c.fdName(fd)
+	isIntMap := func(o types.Object) bool {
+		if o == nil {
+			return false
+		}
+		m, ok := o.Type().Underlying().(*types.Map)
+		if !ok {
+			return false
+		}
+		b, ok := m.Elem().Underlying().(*types.Basic)
+		return ok && b.Info()&types.IsInteger != 0
+	}
+	// lookups:  s := M[k]   (single value)
+	lookupVar := map[types.Object]types.Object{} // s -> M
+	ast.Inspect(fd.Body, func(x ast.Node) bool {
+		if lhs, rhs, ok := multiDef(x); ok && len(lhs) == 1 {
+			if ix, ok := ast.Unparen(rhs).(*ast.IndexExpr); ok {
+				if mo := identObj(info, ix.X); isIntMap(mo) {
+					if so := identObj(info, lhs[0]); so != nil {
+						lookupVar[so] = mo
+					}
+				}
+			}
+		}
+		return true
+	})
+	zeroTested := map[types.Object]ast.Expr{} // M -> the test
+	ast.Inspect(fd.Body, func(x ast.Node) bool {
+		be, ok := x.(*ast.BinaryExpr)
+		if !ok {
+			return true
+		}
+		for _, side := range [][2]ast.Expr{{be.X, be.Y}, {be.Y, be.X}} {
+			tv, isC := info.Types[side[1]]
+			if !isC || tv.Value == nil {
+				continue
+			}
+			k, okc := constantInt(tv)
+			if !okc || (k != 0 && k != 1) {
+				continue
+			}
+			switch be.Op {
+			case token.GTR, token.NEQ, token.EQL, token.GEQ, token.LSS, token.LEQ:
+			default:
+				continue
+			}
+			var mo types.Object
+			if so := identObj(info, side[0]); so != nil {
+				mo = lookupVar[so]
+			}
+			if ix, ok := ast.Unparen(side[0]).(*ast.IndexExpr); ok {
+				if o := identObj(info, ix.X); isIntMap(o) {
+					mo = o
+				}
+			}
+			if mo != nil {
+				zeroTested[mo] = be
+			}
+		}
+		return true
+	})
+	if len(zeroTested) == 0 {
+		return
+	}
+	for mo, test := range zeroTested {
+		var viol []string
+		stores := 0
+		ast.Inspect(fd.Body, func(x ast.Node) bool {
+			as, ok := x.(*ast.AssignStmt)
+			if !ok || len(as.Lhs) != 1 || len(as.Rhs) != 1 {
+				return true
+			}
+			ix, ok := ast.Unparen(as.Lhs[0]).(*ast.IndexExpr)
+			if !ok || identObj(info, ix.X) != mo {
+				return true
+			}
+			stores++
+			e := ast.Unparen(resolveInit(info, fd, as.Rhs[0]))
+			zeroable := ""
+			if call, ok := e.(*ast.CallExpr); ok && isBuiltinCall(info, call, "len") {
+				zeroable = "the length " + exprStr(e) + ", which is 0 for the first entry"
+			}
+			if tv, ok := info.Types[e]; ok && tv.Value != nil {
+				if k, ok := constantInt(tv); ok && k == 0 {
+					zeroable = "the constant 0"
+				}
+			}
+			if id, ok := e.(*ast.Ident); ok {
+				// the index variable of a range statement counts from 0
+				ast.Inspect(fd.Body, func(y ast.Node) bool {
+					if rs, ok := y.(*ast.RangeStmt); ok && rs.Key != nil && identObj(info, rs.Key) == info.Uses[id] {
+						if _, isMap := info.TypeOf(rs.X).Underlying().(*types.Map); !isMap {
+							zeroable = "the zero-based range index " + id.Name
+						}
+					}
+					return true
+				})
+			}
+			if zeroable != "" {
+				viol = append(viol, fmt.Sprintf("%s[...] is given %s at %s, but a key counts as present only when `%s`: the entry stored with 0 is taken for a missing key", mo.Name(), zeroable, c.pos(as.Pos()), exprStr(test)))
+			}
+			return true
+		})
+		switch {
+		case len(viol) > 0:
+			r.fail(rule, construct+"/"+"position-map", c.pos(test.Pos()), strings.Join(dedup(viol), " | "))
+		case stores > 0:
+			r.ok(rule, construct+"/"+"position-map", c.pos(test.Pos()), "no value stored into the map is a length, a zero or a zero-based index")
+		}
+	}
 }
